@@ -26,6 +26,10 @@ import (
 //             fork   - like sleep, and forks a helper process (same process group) that lives on
 //             exit0 / exit3 - like sleep, and exits with that code when the release FIFO is written
 //             stuck  - never reaches STANDBY (stays in INITIALIZING)
+//             done0   - like sleep; once it has reached DONE (EXIT) it exits 0 at once
+//             done3   - like sleep; 300 ms after reaching DONE it exits 3 (crash in its shutdown path)
+//             donesig - like sleep; 300 ms after reaching DONE it dies by a signal (SIGKILL to itself)
+//             nodone  - refuses EXIT (never reaches DONE); exits 3 when told to terminate
 
 type occLog struct {
 	mu sync.Mutex
@@ -46,6 +50,8 @@ type occServer struct {
 	log      *occLog
 	nget     int
 	stopping chan struct{}
+	beh      string
+	leave    chan int // exit code to leave with (-1: die by a signal)
 }
 
 var occTransitions = map[string][2]string{ // event -> (src, dst), control mode DIRECT
@@ -71,8 +77,21 @@ func (s *occServer) Transition(ctx context.Context, r *pb.TransitionRequest) (*p
 	defer s.mu.Unlock()
 	t, known := occTransitions[r.GetTransitionEvent()]
 	ok := known && (t[0] == "" || t[0] == s.state) && s.state != "INITIALIZING"
+	if s.beh == "nodone" && r.GetTransitionEvent() == "EXIT" {
+		ok = false
+	}
 	if ok {
 		s.state = t[1]
+		if s.state == "DONE" { // what the device does once it is DONE
+			switch s.beh {
+			case "done0":
+				time.AfterFunc(5*time.Millisecond, func() { s.leave <- 0 })
+			case "done3":
+				time.AfterFunc(300*time.Millisecond, func() { s.leave <- 3 })
+			case "donesig":
+				time.AfterFunc(300*time.Millisecond, func() { s.leave <- -1 })
+			}
+		}
 	}
 	s.log.emit(map[string]interface{}{"ev": "Occ", "rpc": "Transition", "event": r.GetTransitionEvent(), "ok": ok, "st": s.state})
 	return &pb.TransitionReply{Trigger: pb.StateChangeTrigger_EXECUTOR, State: s.state, TransitionEvent: r.GetTransitionEvent(), Ok: ok}, nil
@@ -105,7 +124,7 @@ func runFakeOcc(port int, logPath, beh, fifo string) int {
 		}
 		go c.Wait()
 	}
-	srv := &occServer{state: "STANDBY", log: lg, stopping: make(chan struct{})}
+	srv := &occServer{state: "STANDBY", log: lg, stopping: make(chan struct{}), beh: beh, leave: make(chan int, 4)}
 	if beh == "stuck" {
 		srv.state = "INITIALIZING"
 	}
@@ -146,8 +165,19 @@ func runFakeOcc(port int, logPath, beh, fifo string) int {
 			lg.emit(map[string]interface{}{"ev": "Sig", "sig": name, "obeyed": beh != "ignore"})
 			if beh != "ignore" {
 				close(srv.stopping)
+				if beh == "nodone" {
+					return 3
+				}
 				return 0
 			}
+		case code := <-srv.leave:
+			lg.emit(map[string]interface{}{"ev": "ChildExit", "code": code})
+			if code < 0 {
+				syscall.Kill(os.Getpid(), syscall.SIGKILL)
+				time.Sleep(time.Second)
+			}
+			close(srv.stopping)
+			return code
 		case code := <-rel:
 			lg.emit(map[string]interface{}{"ev": "ChildExit", "code": code})
 			close(srv.stopping)
